@@ -29,6 +29,14 @@ extern uint64_t w_state, w_next; /* witness variables for replay */
 extern uint8_t w_byte;
 extern uint8_t w_src_old;        /* src[g_i] at entry (copy form) */
 
+/* Value-set refresh: after the loop-contract havoc a moving pointer is "any object" for the symbolic
+ * executor, and a store through it is encoded as an update of every object (the copy form ran out of
+ * memory).  The hook first ASSERTS that the pointer equals base + index (a proof obligation, it is the
+ * invariant) and then assigns exactly that value, which is the identity on the program state. */
+#define PTR_REFRESH(p, e)                                                                          \
+        __CPROVER_assert((p) == (e), "pointer refresh is the identity");                           \
+        (p) = (e);
+
 #define CRC_WITNESS(st, by, nx)                                                                    \
         w_state = (st);                                                                            \
         w_byte = (by);                                                                             \
@@ -47,6 +55,7 @@ extern uint8_t w_src_old;        /* src[g_i] at entry (copy form) */
         __CPROVER_loop_invariant(0 <= i && i <= len && buf == buf0__ + i && crc == S16[i])         \
         __CPROVER_decreases(len - i)
 #define H_crc16_t10dif_base_1                                                                      \
+        PTR_REFRESH(buf, buf0__ + i)                                                               \
         {                                                                                          \
                 uint16_t spec__ = spec_crc16_step_norm(POLY_CRC16_T10DIF, S16[i], buf0__[i]);      \
                 GHOST_AXIOM(S16[i + 1] == spec__);                                                 \
@@ -70,12 +79,14 @@ extern uint8_t w_src_old;        /* src[g_i] at entry (copy form) */
         uint8_t *src0__ = src, *dst0__ = dst;                                                      \
         w_src_old = (g_i < len) ? src[g_i] : 0;
 #define L_crc16_t10dif_copy_base_1                                                                 \
-        __CPROVER_assigns(i, crc, src, dst, w_state, w_next, w_byte, __CPROVER_object_upto(dst0__, len)) \
+        __CPROVER_assigns(i, crc, src, dst, w_state, w_next, w_byte, __CPROVER_object_whole(dst0__)) \
         __CPROVER_loop_invariant(0 <= i && i <= len && src == src0__ + i && dst == dst0__ + i)     \
         __CPROVER_loop_invariant(crc == S16[i])                                                    \
         __CPROVER_loop_invariant((g_i < len && g_i < i) ==> dst0__[g_i] == w_src_old)              \
         __CPROVER_decreases(len - i)
 #define H_crc16_t10dif_copy_base_1                                                                 \
+        PTR_REFRESH(src, src0__ + i)                                                               \
+        PTR_REFRESH(dst, dst0__ + i)                                                               \
         {                                                                                          \
                 uint16_t spec__ = spec_crc16_step_norm(POLY_CRC16_T10DIF, S16[i], src0__[i]);      \
                 GHOST_AXIOM(S16[i + 1] == spec__);                                                 \
@@ -97,13 +108,13 @@ extern uint8_t w_src_old;        /* src[g_i] at entry (copy form) */
         __CPROVER_assigns(p_buf, crc, w_state, w_next, w_byte)                                     \
         __CPROVER_loop_invariant(__CPROVER_same_object(p_buf, buffer) &&                           \
                                  __CPROVER_POINTER_OFFSET(p_buf) >= __CPROVER_POINTER_OFFSET(buffer) && \
-                                 CRC32_PTR_IDX(p_buf, buffer) <= (uint64_t) len &&                 \
-                                 p_end == buffer + len)                                            \
+                                 CRC32_PTR_IDX(p_buf, buffer) <= (uint64_t) len)                   \
         __CPROVER_loop_invariant(crc == S32[CRC32_PTR_IDX(p_buf, buffer)])                         \
         __CPROVER_decreases((uint64_t) len - CRC32_PTR_IDX(p_buf, buffer))
 #define H_crc32_iscsi_base_1                                                                       \
         {                                                                                          \
                 uint64_t i__ = CRC32_PTR_IDX(p_buf, buffer);                                       \
+                PTR_REFRESH(p_buf, buffer + i__)                                                   \
                 uint32_t spec__ = spec_crc32_step_refl(POLY_CRC32_ISCSI_REFL, S32[i__], buffer[i__]); \
                 GHOST_AXIOM(S32[i__ + 1] == spec__);                                               \
                 CRC_WITNESS(S32[i__], buffer[i__], spec__)                                         \
@@ -130,6 +141,7 @@ extern uint8_t w_src_old;        /* src[g_i] at entry (copy form) */
 #define H_crc32_ieee_base_1                                                                        \
         {                                                                                          \
                 uint64_t i__ = len0__ - len - 1;                                                   \
+                PTR_REFRESH(buf, buf0__ + i__)                                                     \
                 uint32_t spec__ = spec_crc32_step_norm(POLY_CRC32_IEEE, S32[i__], buf0__[i__]);    \
                 GHOST_AXIOM(S32[i__ + 1] == spec__);                                               \
                 CRC_WITNESS(S32[i__], buf0__[i__], spec__)                                         \
@@ -147,12 +159,13 @@ extern uint8_t w_src_old;        /* src[g_i] at entry (copy form) */
         __CPROVER_assigns(p_buf, crc, w_state, w_next, w_byte)                                     \
         __CPROVER_loop_invariant(__CPROVER_same_object(p_buf, buf) &&                              \
                                  __CPROVER_POINTER_OFFSET(p_buf) >= __CPROVER_POINTER_OFFSET(buf) && \
-                                 CRC32_PTR_IDX(p_buf, buf) <= len && p_end == buf + len)           \
+                                 CRC32_PTR_IDX(p_buf, buf) <= len)                                 \
         __CPROVER_loop_invariant(crc == S32[CRC32_PTR_IDX(p_buf, buf)])                            \
         __CPROVER_decreases(len - CRC32_PTR_IDX(p_buf, buf))
 #define H_crc32_gzip_refl_base_1                                                                   \
         {                                                                                          \
                 uint64_t i__ = CRC32_PTR_IDX(p_buf, buf);                                          \
+                PTR_REFRESH(p_buf, buf + i__)                                                      \
                 uint32_t spec__ = spec_crc32_step_refl(POLY_CRC32_IEEE_REFL, S32[i__], buf[i__]);  \
                 GHOST_AXIOM(S32[i__ + 1] == spec__);                                               \
                 CRC_WITNESS(S32[i__], buf[i__], spec__)                                            \
